@@ -209,6 +209,16 @@ class EstimatorMonitor:
 
     def on_resume(self, s):
         self.obs['checks_on_resume'] += 1
+        path = getattr(self.driver, 'path', None)
+        if path is not None:
+            import h5py
+            with h5py.File(path, 'r') as f:
+                stored = [str(f['bound_%d' % i].attrs['type']) for i in range(len(s.bounds)) if 'bound_%d' % i in f]
+            live = [type(b).__name__ for b in s.bounds]
+            if stored != live:
+                j = [a != b for a, b in zip(stored, live)].index(True) if len(stored) == len(live) else -1
+                self.bad('resume.bound-class-not-restored', 'bound %d was written as %s but the resumed sampler holds a %s'
+                         % (j, stored[j] if j >= 0 else stored, live[j] if j >= 0 else live), s, 'on resumed sampler')
         self.check(s, 'on resumed sampler', with_posterior=True)
 
 
